@@ -368,24 +368,33 @@ def run_bounded(b, tier, use_cache):
                 h.update(fn.encode()); h.update(open(os.path.join(root, fn), "rb").read())
     for fn in b.get("files", []): h.update(open(os.path.join(VERIF, fn), "rb").read())
     h.update(str(n).encode())
-    key = "bounded_" + b["name"] + "_" + h.hexdigest()
+    key = "bounded_" + b.get("cache_name", b["name"]) + "_" + h.hexdigest()
     cp = os.path.join(CACHE_DIR, key + ".json")
+    raw = None
     if use_cache and os.path.exists(cp):
         try:
-            r = json.load(open(cp)); r["cached"] = True; return r
-        except Exception: pass
-    t0 = time.time()
-    cmd = [x.replace("{n}", str(n)) for x in b["cmd"]]
-    pr = sh(cmd, cwd=VERIF)
-    out = pr.stdout
-    summ = [l for l in out.split("\n") if l.startswith("SUMMARY")]
-    wit = [l for l in out.split("\n") if l.startswith("WITNESS")]
-    r = {"name": b["name"], "bound": "%s <= %d" % (b["bound_what"], n), "cmd": " ".join(cmd), "wall_s": round(time.time() - t0, 1),
-         "summary": summ[0] if summ else None, "witnesses": wit[:40], "ok": bool(summ) and not wit and " disagreements=0 " in (summ[0] + " "),
-         "harness_error": None if summ else (out[-1500:] + pr.stderr[-500:]), "cached": False}
-    os.makedirs(CACHE_DIR, exist_ok=True)
-    json.dump(r, open(cp, "w"))
-    return r
+            raw = json.load(open(cp)); raw["cached"] = True
+        except Exception: raw = None
+    if raw is None:
+        t0 = time.time()
+        cmd = [x.replace("{n}", str(n)) for x in b["cmd"]]
+        pr = sh(cmd, cwd=VERIF)
+        raw = {"out": pr.stdout, "err": pr.stderr[-500:], "cmd": " ".join(cmd), "wall_s": round(time.time() - t0, 1), "cached": False}
+        os.makedirs(CACHE_DIR, exist_ok=True)
+        json.dump(raw, open(cp, "w"))
+    out = raw["out"]
+    want = b.get("oracles")
+    def mine(l):
+        if not want: return True
+        parts = l.split()
+        return len(parts) > 1 and parts[1] in want
+    summ = [l for l in out.split("\n") if l.startswith("SUMMARY") and mine(l)]
+    wit = [l for l in out.split("\n") if l.startswith("WITNESS") and mine(l)]
+    complete = bool(summ) and (not want or len(summ) == len(want))
+    ok = complete and not wit and all(" disagreements=0" in (x + " ") for x in summ)
+    return {"name": b["name"], "bound": ("%s <= %d" % (b["bound_what"], n)) if "{n}" in " ".join(b["cmd"]) else b["bound_what"], "cmd": raw["cmd"], "wall_s": raw["wall_s"],
+            "summary": " | ".join(summ) if summ else None, "witnesses": wit[:40], "ok": ok,
+            "harness_error": None if complete else (out[-1500:] + raw.get("err", "")), "cached": raw["cached"]}
 
 
 def decide(prop, tier="quick", seed=0):
